@@ -43,10 +43,16 @@ FindRB(txt, i) == IF i > Len(txt) THEN 0 ELSE IF txt[i] = RB THEN i ELSE FindRB(
 Sub(txt, i, n) == SubSeq(txt, i, i + n - 1)
 
 \* sorted (ascending by StrLess) duplicate-free sequence of the names in set S
+\* (insertion sort: quadratic in the number of names; selecting the minimum with CHOOSE was cubic and took minutes on
+\*  expressions with 200 variables)
+RECURSIVE InsertName(_, _, _)
+InsertName(x, s, k) == IF k > Len(s) THEN Append(s, x)
+                       ELSE IF StrLeq(x, s[k]) THEN SubSeq(s, 1, k - 1) \o <<x>> \o SubSeq(s, k, Len(s))
+                       ELSE InsertName(x, s, k + 1)
 RECURSIVE SortNames(_)
 SortNames(S) ==
   IF S = {} THEN <<>>
-  ELSE LET m == CHOOSE x \in S : \A y \in S : StrLeq(x, y) IN <<m>> \o SortNames(S \ {m})
+  ELSE LET x == CHOOSE y \in S : TRUE IN InsertName(x, SortNames(S \ {x}), 1)
 
 IsSortedNames(s) == \A j \in 1..(Len(s) - 1) : StrLess(s[j], s[j + 1])
 =============================================================================
